@@ -18,7 +18,7 @@ RULE = (
     'quiescence nothing is pending/started and every accepted event is complete; wait_until_idle() returns. '
     'Non-trivial = some handler was observed cancelled at its own deadline; distinct by canonical JSON.'
 )
-ASSUMPTIONS = ['virtual time, dyadic durations (exact float arithmetic)', 'exact ties between a deadline and another timer accept both outcomes; only "nothing runs strictly after the deadline" is judged there', 'serial buses (parallel sibling awaits are finding F14)']
+ASSUMPTIONS = ['virtual time, dyadic durations (exact float arithmetic)', 'exact ties between a deadline and another timer accept both outcomes; only "nothing runs strictly after the deadline" is judged there']
 
 GRID = [1 / 16, 1 / 8, 1 / 8, 1 / 4, 1 / 4, 1 / 2, 1.0]
 
@@ -39,7 +39,7 @@ def _timeouts(draw):
     return out
 
 
-P = Profile(par=0.0, fwd=0.15, durs=GRID, timeouts=_timeouts(), maxdepth=[1, 2, 3], wild=0.1, raises=0.05, max_ops=5, ops=['sleep', 'sleep', 'sleep', 'yield', 'disp', 'disp', 'disp', 'awaitall'], modes=['await', 'await', 'later', 'ff'], actor_ops=['disp', 'disp', 'sleep', 'sleep', 'await', 'dispany', 'idle'], max_actor_ops=6, hist=[None])
+P = Profile(par=0.15, fwd=0.15, durs=GRID, timeouts=_timeouts(), maxdepth=[1, 2, 3], wild=0.1, raises=0.05, max_ops=5, ops=['sleep', 'sleep', 'sleep', 'yield', 'disp', 'disp', 'disp', 'awaitall'], modes=['await', 'await', 'later', 'ff'], actor_ops=['disp', 'disp', 'sleep', 'sleep', 'await', 'dispany', 'idle'], max_actor_ops=6, hist=[None])
 
 
 @st.composite
